@@ -201,7 +201,11 @@ class SimFile:
             raise OSError(5, "injected write error")
         me = s.me()
         tid = me.tid if me is not None else -1
-        if self.armed and self.armed.get(tid) == "write":
+        if self.armed and self.armed.get(tid) == "write2":
+            # the device takes this write and refuses the next one of the same operation (an output
+            # operation that issues several writes meets the full disk half way through)
+            self.armed[tid] = "write"
+        elif self.armed and self.armed.get(tid) == "write":
             # the device refuses the write: nothing of it reaches the file
             del self.armed[tid]
             self.io_errors["write"] += 1
